@@ -215,3 +215,41 @@ class FetchAtts(Harness):
             if problems:
                 return {"observed": {"line": line, "wrong": problems}, "clause": "sections, partials and .PEEK are decoded faithfully"}
         return None
+
+
+class Terminates(Harness):
+    """Parsing never hangs (C08: 'never any other failure, hang or dropped connection'): every command line is accepted or rejected
+    within a time that does not blow up with its length.  Each input is parsed in its own interpreter under a wall-clock limit."""
+
+    scope = "24 command lines built from long runs (60-200 characters) that end badly: unterminated quoted strings, a bad escape or a bare CR after a long run, long atoms followed by a stray quote, long digit / set / flag runs, deep-but-legal parentheses; limit 5 s per line (a normal parse takes milliseconds)"
+    exhaustive = False
+    LIMIT = 5
+
+    def inputs(self, tier, seed):
+        a, n = "a" * 60, "a" * 200
+        lines = [
+            f'A LOGIN fred "{a}', f'A LOGIN fred "{n}', f'A LOGIN fred "{a}\\x"', f'A LOGIN fred "{a}\ra"', f'A LOGIN "{a}" "{a}',
+            f'A SELECT "{a}', f'A SELECT {a}"', f'A CREATE "{a}\\', f'A LIST "" "{a}', f'A STATUS "{a} (MESSAGES)',
+            f'A SEARCH SUBJECT "{a}', f'A SEARCH HEADER X "{a}" "{a}', f'A SEARCH OR OR OR SUBJECT "{a}" TEXT "{a}', f'A FETCH 1 (BODY[HEADER.FIELDS ("{a})])',
+            f'A STORE 1 +FLAGS (\\{a} "{a})', f'A APPEND "{a} ()', f'A UID FETCH {"1," * 100}x FLAGS', f'A FETCH {"1:2," * 60} (FLAGS', f'A SEARCH {"(" * 40}ALL',
+            f'A ID ("{a}" "{a}', f'A ID ("{a}" nil "{a}', f'A RENAME "{a}" "{a}', f'A COPY 1 "{a}', f'A LSUB "{a}" "{a}',
+        ]
+        for ln in lines:
+            yield {"line": ln}
+
+    def check(self, inp):
+        import os, subprocess, sys, time
+
+        repo = os.environ.get("PYVC_REPO", "/repo")
+        code = ("import sys; sys.path.insert(0, %r)\n"
+                "from asimap.parse import IMAPClientCommand, BadCommand\n"
+                "c = IMAPClientCommand(sys.argv[1] + '\\r\\n')\n"
+                "try:\n    c.parse()\nexcept BadCommand:\n    pass\n" % repo)
+        t0 = time.time()
+        try:
+            r = subprocess.run([sys.executable, "-c", code, inp["line"]], capture_output=True, text=True, timeout=self.LIMIT)
+        except subprocess.TimeoutExpired:
+            return {"observed": f"parse() still running after {self.LIMIT} s", "clause": "parsing a command line terminates promptly (accept, or reject with BAD)"}
+        if r.returncode != 0:
+            return {"observed": (r.stderr or "")[-300:], "clause": "parse() lets only BadCommand escape"}
+        return None
